@@ -14,6 +14,7 @@ package main
 // The generator registers itself in totalModelGens["seqctx"] and is called from areaTotal.
 
 import (
+	"bytes"
 	"sort"
 	"strconv"
 	"strings"
@@ -22,6 +23,7 @@ import (
 	"seehuhn.de/go/sfnt/opentype/classdef"
 	"seehuhn.de/go/sfnt/opentype/coverage"
 	"seehuhn.de/go/sfnt/opentype/gtab"
+	"seehuhn.de/go/sfnt/parser"
 )
 
 // totalSeqctxW encodes big-endian 16-bit words (values are taken modulo 65536).
@@ -474,7 +476,7 @@ type totalSeqctxTab struct {
 	b    []byte
 }
 
-func totalSeqctxStructured(r *Rng) []totalSeqctxTab {
+func totalSeqctxStructured(r *Rng, thorough bool) []totalSeqctxTab {
 	var tt []totalSeqctxTab
 	add := func(name string, b []byte) { tt = append(tt, totalSeqctxTab{name, b}) }
 	ru := func(gc, lc int, in []int, acts ...[2]int) totalSeqctxRule {
@@ -536,7 +538,12 @@ func totalSeqctxStructured(r *Rng) []totalSeqctxTab {
 		add(fs+"cov-equal", b12(totalSeqctxCov1(4, 8), []totalSeqctxSet{set(r1), set(r2)}, -1))
 		add(fs+"cov-invalid", b12(totalSeqctxCov1(8, 4), []totalSeqctxSet{set(r1), set(r2)}, -1))
 		add(fs+"cov-format3", b12(totalSeqctxW(3, 1, 4), []totalSeqctxSet{set(r1)}, -1))
-		add(fs+"cov-full", b12(totalSeqctxCov2([3]int{0, 0xffff, 0}), []totalSeqctxSet{set(r1), set(r2)}, -1))
+		// a coverage range far larger than the rule-set array.  The Lean list model of cov.EncodeLen
+		// (format 2) is quadratic in len(cov): 2000 glyphs in the quick tier, all 65536 in the thorough one
+		add(fs+"cov-wide", b12(totalSeqctxCov2([3]int{0, 1999, 0}), []totalSeqctxSet{set(r1), set(r2)}, -1))
+		if thorough {
+			add(fs+"cov-full", b12(totalSeqctxCov2([3]int{0, 0xffff, 0}), []totalSeqctxSet{set(r1), set(r2)}, -1))
+		}
 		// offsets pointing into the header / at the coverage / beyond
 		{
 			b := b12(cov3, []totalSeqctxSet{set(r1), set(r2)}, -1)
@@ -680,6 +687,23 @@ func totalSeqctxWalk(b []byte, gpos bool) []int {
 	return out
 }
 
+// totalSeqctxHeavy: a format-2 subtable whose coverage table has more than 3000 glyphs (a mutated
+// range end, the full-range table): the Lean list model of cov.EncodeLen is quadratic in len(cov)
+// (40 s for 65536 glyphs in the compiled driver), so these lines are left to the thorough tier.
+func totalSeqctxHeavy(b []byte, pos int) bool {
+	if pos < 0 || pos+4 > len(b) || b[pos] != 0 || b[pos+1] != 2 {
+		return false
+	}
+	covOff := int(b[pos+2])<<8 | int(b[pos+3])
+	heavy := false
+	guard(func() string {
+		cov, err := coverage.Read(parser.New(bytes.NewReader(b)), int64(pos+covOff))
+		heavy = err == nil && len(cov) > 3000
+		return ""
+	})
+	return heavy
+}
+
 func totalSeqctxGen(c *Ctx, r *Rng, seeds []totalSeed) {
 	budget := c.N / 3
 	cnt := 0
@@ -687,6 +711,10 @@ func totalSeqctxGen(c *Ctx, r *Rng, seeds []totalSeed) {
 	seen := map[string]bool{}
 	emit := func(gen string, b []byte, pos int, force bool) bool {
 		if !force && cnt >= limit {
+			return false
+		}
+		if c.Tier != "thorough" && totalSeqctxHeavy(b, pos) {
+			c.Stat("tmseqctx:read:gen", "skipped-heavy-"+gen)
 			return false
 		}
 		key := strconv.Itoa(pos) + " " + string(b)
@@ -706,7 +734,7 @@ func totalSeqctxGen(c *Ctx, r *Rng, seeds []totalSeed) {
 	}
 
 	// 1. structured subtables (always): at pos 0 and behind a junk prefix
-	tabs := totalSeqctxStructured(r)
+	tabs := totalSeqctxStructured(r, c.Tier == "thorough")
 	for _, t := range tabs {
 		emit("structured", t.b, 0, true)
 		pb, pp := withPrefix(t.b)
